@@ -105,7 +105,8 @@ def gen_leaf(r, in_cont, torch_ok=True):
     if k == "np":
         return _np_scalar(r)
     if k == "arr":
-        return ["arr", r.choice(ARR_DTYPES), r.choice(SHAPES), r.randrange(10 ** 6), r.choice(["C", "C", "F", "strided"])]
+        # "zeros": every element is the fill value (the store keeps no chunk for such an array)
+        return ["arr", r.choice(ARR_DTYPES), r.choice(SHAPES), r.randrange(10 ** 6), r.choice(["C", "C", "C", "F", "F", "strided", "strided", "zeros"])]
     if k == "arr0":
         return ["arr", r.choice(ARR_DTYPES), [], r.randrange(10 ** 6), "C"]
     if k == "arrE":
@@ -219,7 +220,84 @@ def gen_cfg(r):
             "as_path": r.random() < 0.5, "mode": r.choice(["w", "o"])}
 
 
+# ------------------------------------------------------------------------------------------
+# overwrite histories: what the target held BEFORE the graph under test is saved onto it with mode 'o'
+def _extra_value(r):
+    """a value of the earlier graph that the later one lacks: mostly kinds that own a store member (array / group)"""
+    sd = r.randrange(10 ** 6)
+    return r.choice([
+        ["arr", r.choice(["float64", "int32", "float32", "uint8", "bool", "complex64"]), r.choice([[2], [2, 2], [3], []]), sd, "C"],
+        ["arr", "float64", [2, 2], sd, "C"],
+        ["list", [["arr", "float64", [2, 2], sd, "C"], ["str", "old"]]],
+        ["tuple", [["arr", "int8", [3], sd, "C"], ["arr", "int8", [3], sd + 1, "C"], ["arr", "int8", [3], sd + 2, "C"]]],
+        ["dict", [["old_k", ["arr", "int16", [3], sd, "C"]], ["n", ["int", 1]]]],
+        ["obj", "NodeB", [["old_a", ["arr", "float32", [2], sd, "C"]], ["s", ["str", "old"]]]],
+        ["tensor", "float32", [2], False, False, sd], ["set", [["int", 5], ["str", "old"]]],
+        ["int", r.randint(0, 99)], ["str", "old"], ["path", "old/p"], ["list", [["int", 1], ["int", 2], ["int", 3]]],
+    ])
+
+
+def gen_prev(r, spec, p_ext=0.6, top=True):
+    """an EARLIER STATE of the graph `spec` (what a long-lived object looked like at its previous save): the same
+    names with other contents, containers / objects that had MORE children (the graph under test is the shrunk one),
+    arrays with other contents (non-zero where the later one is all fill value), other shapes, members that changed
+    their storage kind (attribute <-> array <-> group), members that did not exist yet"""
+    k = spec[0]
+    if k == "obj":
+        fields = [[kk, gen_prev(r, v, p_ext, False)] for kk, v in spec[2] if top or r.random() < 0.9]
+        used = {kk for kk, _ in spec[2]}
+        free = [n for n in (ATTRS_FIELDS if spec[1] in ATTRS_CLASSES else ATTR_NAMES) if n not in used]
+        if r.random() < p_ext:
+            for nm in r.sample(free, min(len(free), r.randint(1, 2))):
+                fields.append([nm, _extra_value(r)])
+        return ["obj", spec[1], fields or [[kk, v] for kk, v in spec[2]][:1]]
+    if k in ("list", "tuple"):
+        items = [gen_prev(r, x, p_ext, False) for x in spec[1]]
+        if r.random() < p_ext:
+            items += [_extra_value(r) for _ in range(r.randint(1, 3))]
+        return [k, items]
+    if k == "set":
+        return [k, list(spec[1]) + ([["str", "old%d" % r.randint(0, 9)]] if r.random() < p_ext else [])]
+    if k == "dict":
+        ent = [[kk, gen_prev(r, v, p_ext, False)] for kk, v in spec[1]]
+        used = {kk for kk, _ in spec[1]}
+        free = [n for n in DICT_KEYS if n not in used]
+        if r.random() < p_ext:
+            for nm in r.sample(free, r.randint(1, 2)):
+                ent.append([nm, _extra_value(r)])
+        return [k, ent]
+    if k == "arr":
+        lay = spec[4] if len(spec) > 4 else "C"
+        if lay == "zeros" or r.random() < 0.5:
+            return ["arr", spec[1], spec[2], spec[3] + 1, "C"]                     # same dtype / shape, other (non-zero) contents
+        if r.random() < 0.5:
+            return ["arr", spec[1], r.choice([[2], [3, 2], [5]]), spec[3] + 1, "C"]    # other shape
+        return _extra_value(r)
+    if k in ("hyb", "module", "optimizer", "scheduler", "summarywriter", "logger", "rootlogger"):
+        return spec
+    return _extra_value(r) if r.random() < 0.2 else spec
+
+
+def history_pool():
+    """(label, spec): graphs for the always-run overwrite histories (each is written over an earlier, larger state of
+    itself on both stores): zero-filled arrays next to non-zero ones, sequences / dicts of arrays and of groups,
+    nested objects, a numeric fast-path list"""
+    i = lambda n: ["int", n]  # noqa: E731
+    a = lambda dt, sh, sd, lay="C": ["arr", dt, sh, sd, lay]  # noqa: E731
+    g1 = root(("name", ["str", "second"]), ("frames", ["list", [a("float64", [2, 2], 1)]]),
+              ("table", ["dict", [["a", a("int32", [3], 2)], ["label", ["str", "x"]]]]),
+              ("mask", a("float64", [4, 4], 3, "zeros")), ("flags", a("bool", [3], 4, "zeros")),
+              ("leaf", ["obj", "NodeB", [["scale", f(2.5)], ["weights", a("float32", [2, 3], 5)], ["z", a("int16", [2], 6, "zeros")]]]),
+              ("nums", ["list", [i(1), i(2)]]))
+    g2 = root(("t", ["tuple", [["dict", [["k", a("uint8", [2], 7)]]], ["list", [a("float32", [2], 8, "zeros"), ["str", "s"]]]]]),
+              ("d", ["dict", [["o", ["obj", "NodeC", [["a", a("complex64", [2], 9)]]]], ["l", ["list", [["tensor", "float32", [2], False, False, 4], ["str", "q"]]]]]]),
+              ("s", ["set", [i(3), ["str", "z"]]]), ("e", ["list", []]), ("x", ["tensor", "float64", [2], True, False, 5]), cls="NodeB")
+    return [("overwrite-history-0", g1), ("overwrite-history-1", g2)]
+
+
 def spec_size(s):
+    if s[0] == "hyb":
+        return 1 + sum(spec_size(v) for _, _, v in s[2])
     if s[0] in ("list", "tuple", "set"):
         return 1 + sum(spec_size(x) for x in s[1])
     if s[0] == "dict":
@@ -230,6 +308,8 @@ def spec_size(s):
 
 
 def spec_depth(s):
+    if s[0] == "hyb":
+        return 1 + max([spec_depth(v) for _, _, v in s[2]] or [0])
     if s[0] in ("list", "tuple", "set"):
         return 1 + max([spec_depth(x) for x in s[1]] or [0])
     if s[0] == "dict":
@@ -414,6 +494,10 @@ def shrink_candidates(spec):
         for j, (kk, v) in enumerate(spec[1]):
             for c in shrink_candidates(v):
                 out.append([k, spec[1][:j] + [[kk, c]] + spec[1][j + 1:]])
+    elif k == "hyb":
+        for j in range(len(spec[2])):
+            if len(spec[2]) > 1:
+                out.append([k, spec[1], spec[2][:j] + spec[2][j + 1:]])
     elif k == "obj":
         for j in range(len(spec[2])):
             if len(spec[2]) > 1:
@@ -429,17 +513,51 @@ def shrink_candidates(spec):
 _POOL = None
 
 
+def _avail_gb():
+    """available memory in GB (a worker holds torch: ~0.6 GB): fewer workers on a machine that is short of memory"""
+    try:
+        for line in open("/proc/meminfo"):
+            if line.startswith("MemAvailable:"):
+                return max(2, int(line.split()[1]) // (1024 * 1024))
+    except Exception:  # noqa
+        pass
+    return 8
+
+
 def pool():
     global _POOL
     if _POOL is None:
-        n = int(os.environ.get("VERIF_C01_WORKERS", "0")) or max(2, min(8, (os.cpu_count() or 4) // 2))
+        n = int(os.environ.get("VERIF_C01_WORKERS", "0")) or max(2, min(8, (os.cpu_count() or 4) // 2, _avail_gb()))
         _POOL = cf.ProcessPoolExecutor(max_workers=n, mp_context=mp.get_context("spawn"))
     return _POOL
 
 
 def run_cases(cases):
+    """run every case in the worker pool; a worker killed from outside (out-of-memory killer on a loaded machine) breaks
+    the whole pool: the cases without a result are then re-run in a fresh, smaller pool (cases are deterministic
+    functions of their spec), at last in this process"""
+    from concurrent.futures.process import BrokenProcessPool
     from .impl_C01 import run_case
-    return list(pool().map(run_case, cases, chunksize=2))
+    global _POOL
+    results = [None] * len(cases)
+    for attempt in range(3):
+        todo = [i for i, r in enumerate(results) if r is None]
+        if not todo:
+            return results
+        try:
+            futs = [(i, pool().submit(run_case, cases[i])) for i in todo]
+            for i, f in futs:
+                try:
+                    results[i] = f.result()
+                except BrokenProcessPool:
+                    raise
+        except BrokenProcessPool:
+            shutdown()
+            os.environ["VERIF_C01_WORKERS"] = "2"
+    for i, r in enumerate(results):
+        if r is None:
+            results[i] = run_case(cases[i])
+    return results
 
 
 def shutdown():
@@ -475,4 +593,4 @@ def shrink(case, key, budget=40):
 
 def case_hash(case):
     return hashlib.sha1(json.dumps([case["spec"], case["cfg"], case.get("skip_save_names"), case.get("skip_save_types"),
-                                    case.get("skip_load_names"), case.get("skip_load_types")], sort_keys=True, default=str).encode()).hexdigest()
+                                    case.get("skip_load_names"), case.get("skip_load_types"), case.get("prev_spec")], sort_keys=True, default=str).encode()).hexdigest()
